@@ -846,7 +846,7 @@ impl Property for C24 {
             .boxed()
     }
     fn budget(&self, tier: Tier) -> Budget {
-        Budget::new(tier.pick(1_200, 40_000), tier.pick(8, 16)).min_nontrivial(tier.pick(200, 6000)).case_timeout(90)
+        Budget::new(tier.pick(1_200, 30_000), tier.pick(8, 16)).min_nontrivial(tier.pick(200, 5000)).case_timeout(90)
     }
     fn rule(&self) -> String {
         "1-3 Parquet files (rowid = position in file) written under generated WriterProperties, sorted/clustered/random NULL-heavy data; \
